@@ -189,7 +189,7 @@ pub fn cmd_c02(args: &Args) -> Report {
         let prog = gen_program(&mut rng, GenOpts { max_events: size, tie_heavy, past_attempts: true, nonzero_start: true, small_n: false });
         let mut opts = run_opts(&mut rng, &prog);
         // a fraction of the programs runs on the default queue parameters
-        opts.default_queue = rng.chance(1, 10) && prog.start_ns / 2_500_000 <= 1_000_000;
+        opts.default_queue = rng.chance(1, 10) && prog.start_ns / 2_500_000 <= 1_000_000 && prog.t_ns <= 3_000_000_000;
         vcommon::mark_case(&format!("c02:{}:{}:{}", args.seed, args.shard, i));
         let out = real_run(&prog, Mode::Run, &opts);
         rep.eval();
@@ -200,6 +200,9 @@ pub fn cmd_c02(args: &Args) -> Report {
         rep.count("event_set_walks", out.walks);
         if prog.start_ns > 0 {
             rep.count("programs_with_nonzero_start", 1);
+            if prog.start_ns >= 10_000_000_000_000_000 {
+                rep.count("programs_starting_beyond_10_7_seconds", 1);
+            }
             if out.pre_run_past_rejected == Some(true) {
                 rep.count("pre_run_adds_before_start_rejected", 1);
             }
@@ -295,12 +298,84 @@ pub fn cmd_c03rt(args: &Args) -> Report {
                 }
             }
         }
+        let clean = findings.is_empty();
         let case = case_json("c03rt", &prog, json!({"run": {}}));
         if !report(&mut rep, "C03", findings, &case) {
             break;
         }
+        // the same rule on a runtime that is paused and resumed (n-steps, until-steps, adds from outside while
+        // paused): pausing must not reorder anything
+        if clean && cfg!(feature = "cq") && i % 3 == 0 {
+            let sopts = RunOpts { walk_every: 0, pre_run_probes: false, default_queue: false, paused_past_probes: false, finish_after_steps: false };
+            for with_ext in [false, true] {
+                let mut p = prog.clone();
+                let steps = random_schedule(&mut rng, &mut p, &out.log, with_ext);
+                let sout = real_run(&p, Mode::Steps(&steps), &sopts);
+                rep.count("stepped_executions_checked_for_order", 1);
+                let mut cum = 0usize;
+                for o in &sout.steps {
+                    cum += o.handled;
+                    if cum > 0 && cum < sout.log.len() && sout.log[cum - 1].now_ns == sout.log[cum].now_ns {
+                        rep.count("pauses_inside_a_group_of_equal_timestamps", 1);
+                    }
+                }
+                if let Some(f) = stepped_order(&p, &steps, &sout) {
+                    let case = case_json("c03rt", &p, json!({"steps": serde_json::to_value(&steps).unwrap()}));
+                    if !report(&mut rep, "C03", vec![f], &case) {
+                        return rep;
+                    }
+                }
+            }
+        }
     }
     rep
+}
+
+/// order of a stepped execution against the reference model driven through the same steps (ids only: counts and
+/// times are C10's and C02's business)
+fn stepped_order(prog: &Program, steps: &[Step], out: &Outcome) -> Option<Finding> {
+    if out.panicked.is_some() {
+        return None;
+    }
+    let mut m = Model::new(prog);
+    m.add_roots(false);
+    m.add_roots(true);
+    for s in steps {
+        match s {
+            Step::N(k) => {
+                m.dispatch_n(*k);
+            }
+            Step::Until(t) => {
+                m.dispatch_until(*t);
+            }
+            Step::Ext { time_ns, id } => m.add(*time_ns, *id),
+        }
+    }
+    m.dispatch_all();
+    let real: Vec<usize> = out.log.iter().map(|r| r.id).collect();
+    let exp: Vec<usize> = m.handled.iter().map(|r| r.id).collect();
+    if real == exp {
+        return None;
+    }
+    let (mut a, mut b) = (real.clone(), exp.clone());
+    a.sort_unstable();
+    b.sort_unstable();
+    if a != b {
+        // another set of events was dispatched: not a question of order
+        return None;
+    }
+    let pos = real.iter().zip(&exp).position(|(x, y)| x != y)?;
+    Some((
+        "C03",
+        "tie-order-stepped",
+        format!(
+            "paused and resumed run ({} steps): dispatch #{pos} at {} ns: expected event {} by the scheduling-order rule, observed {}",
+            steps.len(),
+            m.handled[pos].now_ns,
+            exp[pos],
+            real[pos]
+        ),
+    ))
 }
 
 // -------------------------------------------------------------------------------------------------
@@ -824,6 +899,8 @@ pub fn replay(case: &Value) -> i32 {
         println!("stepped trace: {:?}\npaused observations: {:?}", out.log, out.steps);
         if sub == "c02" {
             check_c02(&prog, &out, true)
+        } else if sub == "c03rt" {
+            stepped_order(&prog, &steps, &out).into_iter().collect()
         } else if sub == "c11" {
             let calls: Vec<LimitCall> = serde_json::from_value(mode.get("limit_calls").expect("limit calls").clone()).expect("limit calls");
             let unlimited = real_run(&prog, Mode::Run, &RunOpts { finish_after_steps: false, ..opts });
